@@ -62,6 +62,17 @@ CLAIMED = {
              'assumed: a text file iterates as its \\n-terminated pieces. CLI process I/O by subprocess runs only.',
         technique='Coq proof (induction over strings) + extracted-model correspondence + CLI subprocess runs',
         design='5/C15'),
+    'C10': dict(
+        text='Theorems for ALL fragment lists and ALL limits about a Gallina model of the Markdown renderer\'s wrapping core: every produced line fits the '
+             'limit or is one single unbreakable word; the lines are groups of exactly the words (none dropped, added or reordered); the result depends on '
+             'the fragments only through their words; code/HTML blocks, tables, ATX headings are rendered independently of the limit (all trees); quotes and '
+             'list items shrink the budget by exactly the width of the prefix they add (all trees). Model tied by the real classmethods on synthetic '
+             'Fragment lists (X-wrap), prefix_lines, and whole documents (X-md). PARTIAL: clause 1 (same meaning after reflow) and idempotence through a '
+             're-parse are decided by the oracle on generated documents only.',
+        note='Trusted: Coq kernel, extraction, hand-written model of markdown_renderer.py (correspondence-checked), regenerated whitespace table, document '
+             'generator and HTML whitespace normaliser. Documents whose round trip already changes without a limit are C09\'s; marker-like words are kf_wrap_block_marker_word. One fix: commit (budget 0).',
+        technique='Coq proof (induction over word/fragment lists) + extracted-model correspondence; meaning clause by generator-oracle',
+        design='5/C10'),
 }
 
 NOT_YET = {}
